@@ -202,3 +202,35 @@ def c08(tier, seed):
     run.add_bounded("rail report oracle", BF.rail_family(seed, _n(tier, 500, 20000)))
     run.notes.append("rail_rep() is pure pandas code: its statement is decided bounded; P covers the Rail in / Rail out labelling of the solve() rows it sums over")
     return run.finish()
+
+
+# ================================================================================================================ C11 / C12
+def _ctor(run, tag):
+    from contracts import ctor as CT
+    from .system_layer import _discharge
+    src = Source()
+    obls, acc = CT.ctor_obligations(run, src)
+    rt = CT.roundtrip_obligations(run, src, acc) if tag == "C12" else []
+    _discharge(run, [o for o in obls + rt if tag in o.get("tags", [])], "constructors / loader")
+
+
+def c11(tier, seed):
+    run = Run("C11", tier, seed, "other", "bin/check C11 --tier " + tier)
+    _ctor(run, "C11")
+    # 'consequently no accepted component can show negative loss, efficiency above 100 % or passive amplification': INV_K is the
+    # precondition under which the C02 / C03 obligations of every kind are proved
+    comp_layer(run, "C11", ("outp", "pwr"), (1, 2), seed, tier)
+    from bounded import families as BF
+    res = BF.ctor_family(seed, _n(tier, 200, 5000))
+    res["exhaustive"] = False
+    run.add_bounded("constructor rejections + sign normalisation twins", res)
+    return run.finish()
+
+
+def c12(tier, seed):
+    run = Run("C12", tier, seed, "other", "bin/check C12 --tier " + tier)
+    _ctor(run, "C12")
+    from bounded import families as BF
+    run.add_bounded("save -> from_file round trip", BF.roundtrip_family(seed, _n(tier, 400, 12000)))
+    run.trusted.add("json.dump / json.load round-trip floats, strings, bools, lists and dicts")
+    return run.finish()
